@@ -39,9 +39,11 @@ def _spec(module):
                   'bad_BND3_handback', 'good_handback', 'h_place', 'bad_BND3_place_call', 'good_place_call', 'use_handback']
         return [{
             'units': {'cJSON.c': 'parse_bad.c', 'cJSON_Utils.c': 'utils_min.c'},
-            'rules': [bnd.bnd_parse, parse.c10_structure, parse.bnd6, tab.tab13, parse.num2, parse.num3, parse.tab22,
+            'rules': [bnd.bnd_parse, parse.c10_structure, parse.bnd6, tab.tab13, parse.num2, parse.num3, parse.num5, parse.tab22,
                       lambda units, R: parse.tab22(units, R, 'bad_TAB22_signed_skip'), lambda units, R: parse.tab22(units, R, 'good_unsigned_skip'),
-                      lambda units, R: parse.tab1(units, R, claim=('pv_bad', 'pv_good', 'pv_skip'))],
+                      lambda units, R: parse.tab1(units, R, claim=('pv_bad', 'pv_good', 'pv_skip'))] +
+                     [(lambda n_: (lambda units, R: parse.ent1(units, R, n_, 'fx_value', 0)))(n_) for n_ in (
+                         'bad_ENT1_blank_test', 'good_blank_test', 'bad_ENT1_refuses_digits', 'good_nothing_left')],
         }, {
             'units': {'cJSON.c': 'string_bad.c', 'cJSON_Utils.c': 'utils_min.c'},
             'rules': [lambda units, R: bnd3._run(units['cJSON.c'], names3, R, 0)],
